@@ -130,10 +130,27 @@ def clear_cache(i: int) -> str:
     return f"{mod}.{name}"
 
 
+def discover_memo_bounds() -> list[tuple[Any, str, int]]:
+    """The size bound of a hand-rolled memo, where it is a private module-level int named after the memo:
+    for a memo dict `_X` of module M, an int of M whose name holds MAX and the stem of X (`_MAX_X`, `_X_MAX`,
+    `_MAX_X_SIZE` ...). None exists on the pinned tree; a change that bounds a memo by hand gets its eviction
+    path exercised the way a shrunk lru_cache does."""
+    found: list[tuple[Any, str, int]] = []
+    for modname, dict_name, _ in discover_memo_dicts():
+        mod = sys.modules[modname]
+        stem = dict_name.strip("_").upper()
+        for name in sorted(vars(mod)):
+            value = vars(mod)[name]
+            if type(value) is int and name.startswith("_") and "MAX" in name.upper() and stem and stem in name.upper():
+                found.append((mod, name, value))
+    return found
+
+
 class ShrunkCaches:
     """Re-wrap every discovered cache with a tiny maxsize so that eviction
     paths run; every module namespace holding the original is re-pointed;
-    restored on exit."""
+    the bound of a hand-rolled memo (discover_memo_bounds) is lowered to the
+    same size; restored on exit."""
 
     def __init__(self, maxsize: int) -> None:
         self.maxsize = maxsize
@@ -141,6 +158,9 @@ class ShrunkCaches:
         self.new: list[Any] = []
 
     def __enter__(self) -> ShrunkCaches:
+        for mod, name, value in discover_memo_bounds():
+            self._undo.append((mod, name, value))
+            setattr(mod, name, max(1, min(value, self.maxsize)))
         for _, _, obj in discover_caches():
             small = functools.lru_cache(maxsize=self.maxsize)(obj.__wrapped__)
             self.new.append(small)
